@@ -31,6 +31,13 @@ M = {
  'c01h-selector-no-fallback': ('ombott/router/radidict.py', '''                                look_back.append(
                                     [route, pnode, i, L, params[:], hooks[:], False]
                                 )''', '''                                pass'''),
+ 'c01i-int-no-sign': ('ombott/router/filter_factory.py', """(r'-?\\d+', int,""", """(r'\\d+', int,"""),
+ 'c01j-float-open-fraction': ('ombott/router/filter_factory.py', """r'-?\\d+(\\.\\d+)?'""", """r'-?\\d+(\\.\\d*)?'"""),
+ 'c01k-path-lookahead-unescaped': ('ombott/router/filter_factory.py', """(?={re.escape(conf)})""", """(?={conf})"""),
+ 'c01l-path-lazy': ('ombott/router/filter_factory.py', """f'.+(?={re.escape(conf)})'""", """f'.+?(?={re.escape(conf)})'"""),
+ 'c01m-int-abs': ('ombott/router/filter_factory.py', """(r'-?\\d+', int,""", """(r'-?\\d+', lambda x: abs(int(x)),"""),
+ 'c01n-float-rounded': ('ombott/router/filter_factory.py', """(r'-?\\d+(\\.\\d+)?', float,""", """(r'-?\\d+(\\.\\d+)?', lambda x: float(round(float(x), 1)),"""),
+ 'c01o-path-end-one-segment': ('ombott/router/filter_factory.py', """else '.+$'""", """else '[^/]+$'"""),
  'c02a-head-no-get': ('ombott/ombott.py', '''            methods = [verb, 'GET', 'ANY']''', '''            methods = [verb, 'ANY']'''),
  'c02b-allow-unsorted': ('ombott/router/radirouter.py', '''            allowed = ",".join(sorted(route.methods))''', '''            allowed = ",".join(route.methods)'''),
  'c02b2-allow-comma-space': ('ombott/router/radirouter.py', '''            allowed = ",".join(sorted(route.methods))''', '''            allowed = ", ".join(sorted(route.methods))'''),
